@@ -56,6 +56,10 @@ OPS = {
     "html-img": ("<img src=\"a.png\" alt=\"A\">\n", {}),
     "cfg-anchors": ("# a\n\n## b\n\n[](#b)\n", {"myst_heading_anchors": 1}),
     "cfg-ext": ("Term\n: def\n\n~~s~~ $x$\n", {"myst_enable_extensions": ["deflist"]}),
+    "inv-other-base": ("[](inv:#abc) [](inv:#ABC) [t](inv:#n1)\n", {"myst_inventories": "@OTHERBASE@"}),
+    "cfg-dmath": ("$$a$$ (l) and 1$x$2 $ y $\n\n- [ ] t\n", {"myst_enable_extensions": ["dollarmath", "tasklist"], "myst_dmath_allow_labels": False, "myst_dmath_allow_digits": False,
+                                                              "myst_dmath_allow_space": False, "myst_enable_checkboxes": True}),
+    "plain-dmath": ("$$a$$ (l) and 1$x$2 $ y $\n\n- [ ] t\n", {"myst_enable_extensions": ["dollarmath", "tasklist"]}),
     "tokenizer-soup": ("```{note}\n:class: \"a\\\n  b\"\n:name: |\n  x\n\nbody\n```\n", {}),
 }
 
@@ -69,6 +73,8 @@ def docutils_run(scratch, text, over):
     st = {"warning_stream": ws, "report_level": 2, "halt_level": 5, "myst_enable_extensions": EXT,
           "myst_inventories": {"k": ["http://x", str(scratch / "o.inv")]}, "myst_heading_anchors": 2, "_disable_config": True}
     st.update(over)
+    if st.get("myst_inventories") == "@OTHERBASE@":
+        st["myst_inventories"] = {"k": ["https://other.example/base/", str(scratch / "o.inv")]}
     try:
         d = publish_doctree(text, source_path=str(scratch / "x.md"), parser=Parser(), settings_overrides=st)
         return d.pformat() + "\n" + ws.getvalue()
@@ -159,6 +165,9 @@ SX_DOCS = {
     "include": "# I\n\n```{include} inc.txt\n:heading-offset: 1\n```\n",
     "rst-include-opt": "# R\n\n```{eval-rst}\n.. include:: inc.txt\n   :heading-offset: 1\n```\n",
     "links": "# L\n\n[](other.md) [t](other.md#sub) [](#lbl) <project:other.md>\n",
+    "fm-subdelims": "---\nmyst:\n  sub_delimiters: ['[', ']']\n---\n# S\n\n[[k]] and {{k}}\n",
+    "fm-dmath": "---\nmyst:\n  dmath_allow_labels: false\n  dmath_allow_digits: false\n  dmath_double_inline: true\n---\n# M\n\n$$a$$ (l) 1$x$2 b $$c$$ d\n",
+    "plain-math": "# M\n\n$$a$$ (l) 1$x$2 b $$c$$ d\n\n{{k}} [[k]]\n",
 }
 
 
@@ -338,10 +347,10 @@ def make_det_tasks(sched):
 
 PROJECT = {
     "index.md": "# Index\n\n```{toctree}\na\nb\nc\n```\n",
-    "a.md": "# A\n\n## Sub\n\n[](b.md#sub) [](c.md) x[^f]\n\n[^f]: fa\n\n```{include} inc.txt\n```\n\n$$x$$ (eqa)\n",
+    "a.md": "---\nmyst:\n  sub_delimiters: ['[', ']']\n---\n# A\n\n## Sub\n\n[](b.md#sub) [](c.md) x[^f] [[k]] {{k}}\n\n[^f]: fa\n\n```{include} inc.txt\n```\n\n$$x$$ (eqa)\n",
     "b.md": "# B\n\n## Sub\n\n## Sub\n\n[](a.md#sub) [](#lblc) {{k}}\n\n```{eval-rst}\n.. include:: inc.txt\n   :heading-offset: 1\n```\n\n<img src=\"x.png\" alt=\"raw\">\n",
     "c.md": "(lblc)=\n# C\n\n[t](b.md#sub-1) {eq}`eqa`\n\n```{include} inc.txt\n```\n\n:::{figure-md} fig\n<img src=\"x.png\" alt=\"a\">\n\ncap\n:::\n",
-    "d.md": "---\nmyst:\n  enable_extensions: [deflist]\n---\n# D\n\nTerm\n: def\n\n[](a.md#sub) [](c.md)\n",
+    "d.md": "---\nmyst:\n  enable_extensions: [deflist, substitution, dollarmath]\n  sub_delimiters: ['[', ']']\n  dmath_allow_digits: false\n---\n# D\n\nTerm\n: def\n\n[](a.md#sub) [](c.md) [[k]] {{k}} 1$x$2\n",
     "inc.txt": "included para\n",
 }
 
